@@ -1048,7 +1048,7 @@ def corr(ctx, nseq=None, oracle_only=False):
                 '+ fixed witness sequences; every attribute compared after every operation; non-trivial = the sequence re-meshes, extends or '
                 'reverts a populated grid; distinct = (initial grid, recipe list)')
     maxlen = ctx.n(40, 400)
-    N = nseq or ctx.n(900, 12000)
+    N = nseq or ctx.n(700, 10000)
     seqs = gen_sequences(ctx, N, maxlen)
     traces = []
     for init, recipes, stream in seqs:
